@@ -5,6 +5,7 @@ import (
 	"context"
 	"errors"
 	"path"
+	"strings"
 	"time"
 
 	"github.com/hack-pad/hackpadfs"
@@ -263,18 +264,50 @@ func (fs *FS) Remove(name string) error {
 
 // Rename implements hackpadfs.RenameFS
 func (fs *FS) Rename(oldname, newname string) error {
-	oldFile, err := fs.getFile(oldname)
+	err := fs.rename(oldname, newname)
 	if err != nil {
-		return &hackpadfs.LinkError{Op: "rename", Old: oldname, New: newname, Err: hackpadfs.ErrNotExist}
+		if pathErr, ok := err.(*hackpadfs.PathError); ok {
+			err = pathErr.Err
+		}
+		return &hackpadfs.LinkError{Op: "rename", Old: oldname, New: newname, Err: err}
 	}
-	oldInfo, err := oldFile.Stat()
+	return nil
+}
+
+func (fs *FS) rename(oldname, newname string) error {
+	oldFile, err := fs.getFile(oldname)
 	if err != nil {
 		return err
 	}
-	if !oldInfo.IsDir() {
-		if oldname == newname {
-			return nil
-		}
+	newFile, err := fs.getFile(newname)
+	switch {
+	case err == nil && newFile.Mode().IsDir():
+		// like os.Rename, never replace a directory. includes renaming a directory to itself
+		return hackpadfs.ErrExist
+	case err == nil && oldname == newname:
+		return nil
+	case err == nil && oldFile.Mode().IsDir():
+		return hackpadfs.ErrNotDir
+	case err != nil && !errors.Is(err, hackpadfs.ErrNotExist):
+		return err
+	}
+	if oldname == "." || strings.HasPrefix(newname, oldname+"/") {
+		// can't move the root or move a directory into itself
+		return hackpadfs.ErrInvalid
+	}
+	newParent, err := fs.getFile(path.Dir(newname))
+	if err != nil {
+		return err
+	}
+	if !newParent.Mode().IsDir() {
+		return hackpadfs.ErrNotDir
+	}
+	return fs.renameFile(oldFile, oldname, newname)
+}
+
+// renameFile moves oldFile and, for a directory, everything inside. The destination must have been validated.
+func (fs *FS) renameFile(oldFile *file, oldname, newname string) error {
+	if !oldFile.Mode().IsDir() {
 		contents, err := oldFile.fileData.Data()
 		if err != nil {
 			return err
@@ -294,11 +327,6 @@ func (fs *FS) Rename(oldname, newname string) error {
 		return err
 	}
 
-	_, err = fs.getFile(newname)
-	if !errors.Is(err, hackpadfs.ErrNotExist) {
-		return &hackpadfs.LinkError{Op: "rename", Old: oldname, New: newname, Err: hackpadfs.ErrExist}
-	}
-
 	files, err := oldFile.ReadDirNames()
 	if err != nil {
 		return err
@@ -308,7 +336,11 @@ func (fs *FS) Rename(oldname, newname string) error {
 		return err
 	}
 	for _, name := range files {
-		err := fs.Rename(path.Join(oldname, name), path.Join(newname, name))
+		oldChildName, newChildName := path.Join(oldname, name), path.Join(newname, name)
+		child, err := fs.getFile(oldChildName)
+		if err == nil {
+			err = fs.renameFile(child, oldChildName, newChildName)
+		}
 		if err != nil {
 			// TODO don't leave destination in corrupted state (missing file records for dir names)
 			return err
